@@ -189,7 +189,7 @@ theorem sSyncDirBoth_nil (l : Live) (sp : Spec) (p : Path) (ht : sp.touched = []
   | none => rfl
   | some id =>
     simp only [ht, List.filter_nil, List.map_nil, List.eraseDups_nil, List.filterMap_nil, List.any_nil,
-      Bool.not_false, Bool.and_true, List.append_nil]
+      Bool.not_false, Bool.and_true, List.append_nil, List.getLast?_nil]
     cases sp with
     | mk ll dur dents wlog touched =>
       simp only at ht
